@@ -14,7 +14,11 @@ import (
 	"crypto/sha256"
 	"encoding/json"
 	"fmt"
+	"io"
 	"math/rand"
+	"net"
+	"net/http"
+	"net/http/httptest"
 	"os"
 	"path/filepath"
 	"runtime"
@@ -22,10 +26,13 @@ import (
 	"strconv"
 	"strings"
 	"sync"
+	"syscall"
 	"testing"
 	"time"
 
+	"github.com/glauth/ldap"
 	zxcvbn "github.com/nbutton23/zxcvbn-go"
+	"github.com/whawty/auth/sasl"
 	"github.com/whawty/auth/verifconcrete"
 
 	lib "github.com/whawty/auth/store"
@@ -89,7 +96,7 @@ func listPairs(l lib.UserList) [][]interface{} {
 
 func base(ev string) map[string]interface{} {
 	return map[string]interface{}{"ev": ev, "c": "", "k": "", "u": "", "p": "", "a": false, "ok": false,
-		"adm": false, "upg": false, "list": [][]interface{}{}, "err": ""}
+		"adm": false, "admknown": true, "upg": false, "list": [][]interface{}{}, "err": ""}
 }
 
 // sink is installed as verifSink: it translates hook events into trace records.
@@ -267,8 +274,9 @@ type fileSt struct {
 }
 
 type step struct {
-	T string `json:"t"` // send | recv | upsend | free | load | hup | sleep
+	T string `json:"t"` // send | recv | upsend | free | load | hup | sleep | token
 	C string `json:"c"`
+	Via string `json:"via"`
 	K string `json:"k"`
 	U string `json:"u"`
 	P string `json:"p"`
@@ -280,6 +288,7 @@ type step struct {
 	Kinds   []string `json:"kinds"`
 	Users   []string `json:"users"`
 	Pws     []string `json:"pws"`
+	Vias    []string `json:"vias"`
 	// hup
 	Cfg string `json:"cfg"`
 }
@@ -295,6 +304,8 @@ type scenario struct {
 	Steps      []step             `json:"steps"`
 	Seed       int64              `json:"seed"`
 	Gated      bool               `json:"gated"`
+	Frontends  bool               `json:"frontends"`
+	HTTPAdmin  []string           `json:"http_admin"` // [user, password tag] used to obtain the session token
 	HooksDir   string             `json:"hooks_dir"`
 }
 
@@ -322,6 +333,7 @@ type runner struct {
 	wg    sync.WaitGroup
 	calls int
 	freed bool
+	fe    frontEnds
 	res   scenResult
 }
 
@@ -426,35 +438,143 @@ func (r *runner) totalQueued() int {
 }
 
 // call performs one blocking client call and logs call/ret around it.
-func (r *runner) call(c, k, u, ptag string, a bool) {
+func (r *runner) call(c, k, u, ptag string, a bool) { r.callVia("api", c, k, u, ptag, a) }
+
+// callVia performs one blocking client call through the given frontend and logs call/ret around it.
+//   api   the in-process Store interface            sasl  saslauthd unix socket (bundled Go client)
+//   http  JSON API with an admin session token       basic HTTP basic-auth      ldap  LDAP simple bind
+func (r *runner) callVia(via, c, k, u, ptag string, a bool) {
 	m := base("call")
-	m["c"], m["k"], m["u"], m["p"], m["a"] = c, k, u, ptag, a
+	m["c"], m["k"], m["u"], m["p"], m["a"], m["via"] = c, k, u, ptag, a, via
 	rec.add(m)
 	pw := r.sc.Passwords[ptag]
 	ret := base("ret")
-	ret["c"], ret["k"] = c, k
-	switch k {
-	case "auth":
-		ok, adm, _, err := r.api.Authenticate(u, pw)
-		ret["ok"], ret["adm"], ret["err"] = ok, adm, errStr(err)
-	case "update":
-		err := r.api.Update(u, pw)
-		ret["ok"], ret["err"] = err == nil, errStr(err)
-	case "add":
-		err := r.api.Add(u, pw, a)
-		ret["ok"], ret["err"] = err == nil, errStr(err)
-	case "remove":
-		err := r.api.Remove(u)
-		ret["ok"], ret["err"] = err == nil, errStr(err)
-	case "setadmin":
-		err := r.api.SetAdmin(u, a)
-		ret["ok"], ret["err"] = err == nil, errStr(err)
-	case "list":
-		l, err := r.api.List()
-		ret["ok"], ret["err"] = err == nil, errStr(err)
-		ret["list"] = listPairs(l)
+	ret["c"], ret["k"], ret["via"] = c, k, via
+	switch via {
+	case "sasl":
+		ok, msg, err := sasl.NewClient(r.fe.saslPath).Auth(u, pw, "svc", "realm")
+		ret["ok"], ret["err"] = ok && err == nil, msg+errStr(err)
+		ret["admknown"] = false
+	case "ldap":
+		code, err := ldapHandler{store: r.api}.Bind(u+"@example.org", pw, nil)
+		ok := code == ldap.LDAPResultSuccess && err == nil
+		ret["ok"], ret["admknown"] = ok, false
+	case "basic":
+		req, _ := http.NewRequest("GET", r.fe.httpURL+"/basic-auth", nil)
+		req.SetBasicAuth(u, pw)
+		resp, err := http.DefaultClient.Do(req)
+		ok := err == nil && resp.StatusCode == 200
+		if err == nil {
+			io.Copy(io.Discard, resp.Body)
+			resp.Body.Close()
+		}
+		ret["ok"], ret["admknown"] = ok, false
+	case "http":
+		r.httpCall(ret, k, u, pw, a)
+	default:
+		switch k {
+		case "auth":
+			ok, adm, _, err := r.api.Authenticate(u, pw)
+			ret["ok"], ret["adm"], ret["err"] = ok, adm, errStr(err)
+		case "update":
+			err := r.api.Update(u, pw)
+			ret["ok"], ret["err"] = err == nil, errStr(err)
+		case "add":
+			err := r.api.Add(u, pw, a)
+			ret["ok"], ret["err"] = err == nil, errStr(err)
+		case "remove":
+			err := r.api.Remove(u)
+			ret["ok"], ret["err"] = err == nil, errStr(err)
+		case "setadmin":
+			err := r.api.SetAdmin(u, a)
+			ret["ok"], ret["err"] = err == nil, errStr(err)
+		case "list":
+			l, err := r.api.List()
+			ret["ok"], ret["err"] = err == nil, errStr(err)
+			ret["list"] = listPairs(l)
+		}
 	}
 	rec.add(ret)
+}
+
+func (r *runner) post(path string, body interface{}) (int, map[string]interface{}) {
+	b, _ := json.Marshal(body)
+	resp, err := http.Post(r.fe.httpURL+path, "application/json", bytes.NewReader(b))
+	if err != nil {
+		return 0, nil
+	}
+	defer resp.Body.Close()
+	out := map[string]interface{}{}
+	json.NewDecoder(resp.Body).Decode(&out)
+	return resp.StatusCode, out
+}
+
+func (r *runner) httpCall(ret map[string]interface{}, k, u, pw string, a bool) {
+	switch k {
+	case "auth":
+		st, out := r.post("/api/authenticate", map[string]interface{}{"username": u, "password": pw})
+		ret["ok"] = st == 200
+		if adm, ok := out["admin"].(bool); ok {
+			ret["adm"] = adm
+		}
+		if s, _ := out["session"].(string); st == 200 && s == "" {
+			ret["err"] = "200 without session"
+		}
+	case "update":
+		st, _ := r.post("/api/update", map[string]interface{}{"session": r.fe.token, "username": u, "newpassword": pw})
+		ret["ok"] = st == 200
+	case "add":
+		st, _ := r.post("/api/add", map[string]interface{}{"session": r.fe.token, "username": u, "password": pw, "admin": a})
+		ret["ok"] = st == 200
+	case "remove":
+		st, _ := r.post("/api/remove", map[string]interface{}{"session": r.fe.token, "username": u})
+		ret["ok"] = st == 200
+	case "setadmin":
+		st, _ := r.post("/api/set-admin", map[string]interface{}{"session": r.fe.token, "username": u, "admin": a})
+		ret["ok"] = st == 200
+	case "list":
+		st, out := r.post("/api/list", map[string]interface{}{"session": r.fe.token})
+		ret["ok"] = st == 200
+		pairs := [][]interface{}{}
+		if l, ok := out["list"].(map[string]interface{}); ok {
+			keys := []string{}
+			for k := range l {
+				keys = append(keys, k)
+			}
+			sort.Strings(keys)
+			for _, k := range keys {
+				e, _ := l[k].(map[string]interface{})
+				adm, _ := e["admin"].(bool)
+				pairs = append(pairs, []interface{}{k, adm})
+			}
+		}
+		ret["list"] = pairs
+	}
+}
+
+type frontEnds struct {
+	saslPath string
+	httpURL  string
+	token    string
+	srv      *httptest.Server
+}
+
+// startFrontends runs the real saslauthd listener and the real HTTP handler on top of the agent.
+func (r *runner) startFrontends(dir string) {
+	r.fe.saslPath = filepath.Join(dir, "sasl.sock")
+	go runSaslAuthSocket(r.fe.saslPath, r.api) //nolint:errcheck
+	mux, err := newWebHandler(r.api)
+	if err != nil {
+		panic(err)
+	}
+	r.fe.srv = httptest.NewServer(mux)
+	r.fe.httpURL = r.fe.srv.URL
+	for i := 0; i < 2000; i++ {
+		if _, err := os.Stat(r.fe.saslPath); err == nil {
+			break
+		}
+		time.Sleep(time.Millisecond)
+	}
 }
 
 func (r *runner) hang(where string) {
@@ -506,11 +626,33 @@ func (r *runner) run(dir string) scenResult {
 		gt.arm("disp.idle", "upgrade.send")
 	}
 	var err error
+	if sc.Mode == "stalled" { // an upgrade master that accepts connections and never answers
+		ln, lerr := net.Listen("tcp", "127.0.0.1:0")
+		if lerr != nil {
+			panic(lerr)
+		}
+		defer ln.Close()
+		go func() {
+			var held []net.Conn
+			for {
+				c, aerr := ln.Accept()
+				if aerr != nil {
+					return
+				}
+				held = append(held, c)
+			}
+		}()
+		sc.Mode = "http://" + ln.Addr().String() + "/api/update"
+	}
 	r.st, err = NewStore(r.cfg, sc.Mode, sc.PolicyType, sc.PolicyCond, sc.HooksDir)
 	if err != nil {
 		panic(fmt.Sprintf("NewStore: %v", err))
 	}
 	r.api = r.st.GetInterface()
+	if sc.Frontends {
+		r.startFrontends(dir)
+		defer r.fe.srv.Close()
+	}
 	if sc.Gated && gt.waitParked(watchdog, "disp.idle") == "" {
 		panic("dispatcher did not reach the idle gate")
 	}
@@ -529,7 +671,7 @@ func (r *runner) run(dir string) scenResult {
 			cid := fmt.Sprintf("%s.%d", s.C, r.calls)
 			go func(s step) {
 				defer r.wg.Done()
-				r.call(cid, s.K, s.U, s.P, s.A)
+				r.callVia(s.Via, cid, s.K, s.U, s.P, s.A)
 			}(s)
 			// wait until the request sits in its channel (or the sender is blocked on a full one)
 			for i := 0; i < 2000 && r.lenOf(s.K) == before; i++ {
@@ -559,6 +701,35 @@ func (r *runner) run(dir string) scenResult {
 			if gt.waitParked(watchdog, "disp.idle", "upgrade.send") == "" {
 				r.hang("after upgrade send")
 			}
+		case "token": // log in as an administrator over HTTP to obtain the session token (a real, logged call)
+			done := make(chan struct{})
+			go func() {
+				defer close(done)
+				m := base("call")
+				m["c"], m["k"], m["u"], m["p"], m["via"] = "tok", "auth", sc.HTTPAdmin[0], sc.HTTPAdmin[1], "http"
+				rec.add(m)
+				st, out := r.post("/api/authenticate", map[string]interface{}{"username": sc.HTTPAdmin[0], "password": sc.Passwords[sc.HTTPAdmin[1]]})
+				ret := base("ret")
+				ret["c"], ret["k"], ret["ok"], ret["via"] = "tok", "auth", st == 200, "http"
+				if adm, ok := out["admin"].(bool); ok {
+					ret["adm"] = adm
+				}
+				r.fe.token, _ = out["session"].(string)
+				rec.add(ret)
+			}()
+			if sc.Gated { // serve exactly this request
+				for i := 0; i < 5000 && r.totalQueued() == 0; i++ {
+					time.Sleep(100 * time.Microsecond)
+				}
+				gt.release("disp.idle")
+				for gt.waitParked(watchdog, "disp.idle", "upgrade.send") == "upgrade.send" {
+					gt.release("upgrade.send")
+					time.Sleep(time.Millisecond)
+				}
+			}
+			<-done
+		case "fdstorm":
+			r.fdStorm(s)
 		case "load":
 			r.load(s)
 		case "sleep":
@@ -661,7 +832,20 @@ func (r *runner) load(s step) {
 				case "list":
 					u, p, a = "", "", false
 				}
-				r.call(c, k, u, p, a)
+				via := "api"
+				if len(s.Vias) > 0 {
+					via = s.Vias[rng.Intn(len(s.Vias))]
+					if k != "auth" && via != "http" {
+						via = "api"
+					}
+					if (u == "" || r.sc.Passwords[p] == "") && k != "list" {
+						via = "api" // the transports refuse empty fields before the store is consulted
+					}
+					if via == "http" && r.fe.token == "" && k != "auth" {
+						via = "api"
+					}
+				}
+				r.callVia(via, c, k, u, p, a)
 			}
 		}(i)
 	}
@@ -675,6 +859,45 @@ func (r *runner) load(s step) {
 }
 
 func (r *runner) hup(s step) {}
+
+// fdStorm: a sasl client connects while the process has no free file descriptor (accept fails with
+// EMFILE); after descriptors are free again that client and a fresh one must be answered.
+func (r *runner) fdStorm(s step) {
+	var old syscall.Rlimit
+	syscall.Getrlimit(syscall.RLIMIT_NOFILE, &old)
+	ents, _ := os.ReadDir("/proc/self/fd")
+	lim := syscall.Rlimit{Cur: uint64(len(ents) + 6), Max: old.Max}
+	syscall.Setrlimit(syscall.RLIMIT_NOFILE, &lim)
+	var hog []*os.File
+	for {
+		f, err := os.Open("/dev/null")
+		if err != nil {
+			break
+		}
+		hog = append(hog, f)
+	}
+	if len(hog) > 0 { // leave exactly one descriptor: the client's socket
+		hog[len(hog)-1].Close()
+		hog = hog[:len(hog)-1]
+	}
+	d1 := make(chan struct{})
+	go func() { r.callVia("sasl", "fd1", "auth", s.U, s.P, false); close(d1) }()
+	time.Sleep(150 * time.Millisecond)
+	for _, f := range hog {
+		f.Close()
+	}
+	syscall.Setrlimit(syscall.RLIMIT_NOFILE, &old)
+	d2 := make(chan struct{})
+	go func() { r.callVia("sasl", "fd2", "auth", s.U, s.P, false); close(d2) }()
+	for _, d := range []chan struct{}{d1, d2} {
+		select {
+		case <-d:
+		case <-time.After(watchdog):
+			r.hang("sasl listener stopped answering after a transient accept error")
+			return
+		}
+	}
+}
 
 // dirSha is a byte-level fingerprint of the directory (names, modes, contents; .tmp if empty ignored).
 func dirSha(dir string) string {
